@@ -192,6 +192,47 @@ class SimLoop(asyncio.BaseEventLoop):
         self.close()
 
 
+class _TransportSocket:
+    """What ``transport.get_extra_info("socket")`` hands out: socket options are recorded, SO_RCVLOWAT is honoured by the delivery."""
+
+    def __init__(self, tr):
+        self._tr = tr
+
+    def setsockopt(self, level, opt, value) -> None:
+        import socket as _s
+
+        self._tr._sockopts[(level, opt)] = value
+        if level == _s.SOL_SOCKET and opt == getattr(_s, "SO_RCVLOWAT", -1):
+            self._tr._rcvlowat = max(1, int(value))
+
+    def getsockopt(self, level, opt, *a):
+        return self._tr._sockopts.get((level, opt), 0)
+
+    def fileno(self) -> int:
+        return -1 if self._tr._lost else 30000 + self._tr.cid
+
+    def getpeername(self):
+        return (self._tr.host, self._tr.port)
+
+    def getsockname(self):
+        return ("192.0.2.10", 50000 + self._tr.cid)
+
+    def gettimeout(self):
+        return 0.0
+
+    @property
+    def family(self):
+        import socket as _s
+
+        return _s.AF_INET
+
+    @property
+    def type(self):
+        import socket as _s
+
+        return _s.SOCK_STREAM
+
+
 class SimTransport(net.Conn, asyncio.Transport):
     def __init__(self, world, cid, host, port, peer, spec, loop: SimLoop, protocol):
         net.Conn.__init__(self, world, cid, host, port, peer, spec)
@@ -202,6 +243,9 @@ class SimTransport(net.Conn, asyncio.Transport):
         self._last_rx = 0
         self._last_tx = 0
         self._lost = False
+        self._kbuf = b""      # bytes the "kernel" holds back (SO_RCVLOWAT)
+        self._rcvlowat = 1
+        self._sockopts: t.Dict[t.Tuple[int, int], t.Any] = {}
 
     # -- delivery towards the client ---------------------------------------
     def _deliver(self, item) -> None:
@@ -228,8 +272,17 @@ class SimTransport(net.Conn, asyncio.Transport):
             if self._lost:
                 return
             if kind == "data":
-                self._protocol.data_received(item[1])
+                # SO_RCVLOWAT: the kernel reports the socket readable only once that many bytes are queued (or the stream ended)
+                self._kbuf += item[1]
+                if len(self._kbuf) >= self._rcvlowat:
+                    data_, self._kbuf = self._kbuf, b""
+                    self._protocol.data_received(data_)
+                else:
+                    self.world.stats["rcvlowat_held"] += 1
             elif kind == "eof":
+                if self._kbuf:
+                    data_, self._kbuf = self._kbuf, b""
+                    self._protocol.data_received(data_)
                 keep = self._protocol.eof_received()
                 if not keep:
                     self._force_close(None)
@@ -283,6 +336,10 @@ class SimTransport(net.Conn, asyncio.Transport):
         self.close()
 
     def get_extra_info(self, name, default=None):
+        if name == "socket":
+            return _TransportSocket(self)
+        if name == "peername":
+            return (self.host, self.port)
         return default
 
     def can_write_eof(self) -> bool:
